@@ -4,6 +4,8 @@
 set -e
 cd "$(dirname "$0")/.."
 cd coq
+# generated facts files are untracked; start from the committed baseline copies (every run of C19/C20 regenerates them)
+for f in ParamsFacts AbiFacts; do [ -f gen/$f.v ] || cp gen/$f.baseline gen/$f.v; done
 coq_makefile -f _CoqProject -o Makefile >/dev/null
 timeout 3000 make -j16 > ../.setup-coq.log 2>&1 || { tail -40 ../.setup-coq.log; exit 1; }
 cd ..
